@@ -69,8 +69,8 @@ CLAIMED["C19"] = (
 CLAIMED["C16"] = (
     "translator (Python ast -> Lean) regenerates the decision code of insights/client/config.py (_imply_options, _validate_options, option table) on every run; Lean theorems proved over the REGENERATED definitions; hand-written loader model; differential correspondence on real load_all runs",
     "Proof over the regenerated _imply_options/_validate_options, for all environments and configurations: offline => no_upload, no register, no auto_update and none of the 7 requests; output dir/file => no_upload and no keep_archive; "
-    "obfuscate_hostname => obfuscate; conflicting combinations are rejected (validate = false). Proof over the hand-written loader model: precedence cli > env > file > constructed value (full chain when --conf is absent; with --conf relative to the first pass), "
-    "unknown names dropped, a successful load decomposes into imply + validate. One negation witness (known finding legacy-section-typed-option). Tied: ~15000 cases per quick run (primitives, 2^13 exhaustive constructor assignments, random constructor cases, "
+    "obfuscate_hostname => obfuscate; conflicting combinations are rejected (validate = false). Proof over the hand-written loader model: precedence cli > env > file > constructed value for every name and every command line (precedence_full, incl. --conf), "
+    "unknown names dropped, a successful load decomposes into imply + validate, a legacy [redhat-access-insights] section loads like [insights-client] (legacy_section_loads — full strength after repair 8686086). Tied: ~15000 cases per quick run (primitives, 2^13 exhaustive constructor assignments, random constructor cases, "
     "4000 real load_all runs under controlled argv / environment / config file / scratch file system; every attribute or the exception compared) + an independent oracle stating the property on each case.",
     "Trusted: Lean kernel + propext/Classical.choice/Quot.sound; the translator's shape (its symbolic results and the load_all call order are machine-checked by canned lemmas); argparse and RawConfigParser (the model receives parsed pairs); os.path facts and manifests as Env parameters; "
     "ASCII case mapping; int/float for plain decimal literals; boolean environment spellings for path-typed options are outside the model; harness generators and canonicalisers.",
